@@ -28,7 +28,8 @@ RULE = {
            "switched threads at least once while >=2 threads were still running; distinct = distinct sequences of "
            "(from-thread, to-thread, function, relative line) at the switch points",
 }
-FAULT_KINDS = {"C19": ["preemption", "lock_contention", "crypt_static_buffer_yield", "import_lock_wait", "first_initialisation_fails"]}
+FAULT_KINDS = {"C19": ["preemption", "lock_contention", "crypt_static_buffer_yield", "import_lock_wait", "first_initialisation_fails",
+                       "first_backend_candidate_unusable"]}
 COMPONENTS = {
     "real": ["all passlib code (context, registry, utils.handlers backend machinery, utils.binary lazy engines, crypto.digest, handlers)",
              "CPython threads (real threading.Thread, one runnable at a time)", "crypt(3), bcrypt wheel, hashlib"],
@@ -148,7 +149,9 @@ def generate(rng, prop, tier):
                            for _ in range(rng.randint(1, 2))]
     elif t == "T3":
         h = rng.choice(BACKEND_HASHERS)
-        params = {"hasher": h, "derived": rng.random() < 0.25}
+        # crypt_lacks: a host whose crypt(3) knows none of these formats, so the FIRST candidate backend of the selection is tried
+        # and found unusable before the next one is installed (a longer initialisation with a failed step in the middle)
+        params = {"hasher": h, "derived": rng.random() < 0.25, "crypt_lacks": rng.random() < 0.4}
         backends = ["os_crypt", "builtin", "bcrypt", "stdlib", "any"]
         for _ in range(nthreads):
             calls = []
@@ -367,6 +370,11 @@ def build_env(cfg):
         elif t == "T3":
             import passlib.hash
 
+            if p.get("crypt_lacks"):
+                from simkit.seams import SimCrypt
+
+                sc = SimCrypt().install()
+                sc.lost.add("")
             H = getattr(passlib.hash, p["hasher"])
             env["H0"] = H
             if p.get("derived"):
@@ -821,6 +829,8 @@ def execute(program, ctx):
                           lambda: f"{tgt}: thread {ti} call {call} returned {got[1]!r}; a single thread gets {want}; "
                                   f"switches={sched.switch_sites[:12]}",
                           target=kind, exc="wrong-value", func=call[0])
+    if cfg["target"] == "T3" and cfg["params"].get("crypt_lacks"):
+        ctx.fault("first_backend_candidate_unusable")
     if fail_once:
         ctx.fault("first_initialisation_fails")
         ctx.check(injected == 1, "C19", "thread-outcome-differs",
